@@ -200,6 +200,82 @@ def run(chk, prog):
                            'consts::resolve_choice does not visit Choice::%s although it carries expressions: a CONST '
                            'used there is emitted as a reference to an undeclared variable' % f['n'], rch.loc(0))
 
+    # ---------------- the validator's walks reach every position that can name a target
+    RV = 'C06.validator-walks-cover-the-tree'
+    chk.rule(RV, 'The validator pass that checks called functions and divert-target values (validate_node_function_calls / '
+             'validate_expr_function_calls) has an explicit arm for every Node variant that carries an Expression or a '
+             'node list, and an arm for Expression::DivertTarget and every Expression variant that contains an '
+             'Expression; the pass that checks divert targets (validate_node_divert) has an arm for every Node variant '
+             'that carries a node list or is itself a divert; validate_story runs the expression check over the initial '
+             'values of the globals. A position without an arm is emitted unchecked: a target that does not exist becomes '
+             'a path that resolves to nothing.')
+    vnf, vef = prog.fn('ValidationContext::validate_node_function_calls'), prog.fn('ValidationContext::validate_expr_function_calls')
+    vnd, vst = prog.fn('ValidationContext::validate_node_divert'), prog.fn('ValidationContext::validate_story')
+    if node is not None and expr is not None and all(chk.anchor(RV, n_, f_) for n_, f_ in (
+            ('ValidationContext::validate_node_function_calls', vnf), ('ValidationContext::validate_expr_function_calls', vef),
+            ('ValidationContext::validate_node_divert', vnd), ('ValidationContext::validate_story', vst))):
+        TE = {'bladeink_compiler::ast::Expression', 'bladeink_compiler::ast::Node'}
+        TN = {'bladeink_compiler::ast::Node'}
+        arms = explicit_arms(prog, vnf, 'ast::Node') or set()
+        needv = [v['n'] for v in node['variants'] if any(contains_type(prog, f['tree'], TE) for f in v['fields'])]
+        chk.floor(RV, 'Node variants carrying expressions / node lists', len(needv), 12)
+        for v in needv:
+            chk.decide(RV, chk.key(RV, 'validate_node_function_calls', v), v in arms, 'visited',
+                       'validate_node_function_calls has no arm for Node::%s although it carries expressions or nodes: a '
+                       'call of an unknown function or a divert-target value that names nothing is accepted there' % v,
+                       vnf.loc(0))
+        earms = explicit_arms(prog, vef, 'ast::Expression') or set()
+        for v in [x['n'] for x in expr['variants'] if any(contains_type(prog, f['tree'], {'bladeink_compiler::ast::Expression'})
+                                                          for f in x['fields'])] + ['DivertTarget']:
+            chk.decide(RV, chk.key(RV, 'validate_expr_function_calls', v), v in earms, 'visited',
+                       'validate_expr_function_calls has no arm for Expression::%s: %s' % (
+                           v, 'a divert target written as a value is never looked up' if v == 'DivertTarget'
+                           else 'its operands are not checked'), vef.loc(0))
+        darms = explicit_arms(prog, vnd, 'ast::Node') or set()
+        needd = [v['n'] for v in node['variants'] if any(contains_type(prog, f['tree'], TN) for f in v['fields'])] + \
+                [v['n'] for v in node['variants'] if 'Divert' in v['n'] or v['n'] == 'TunnelOnwardsWithTarget']
+        for v in sorted(set(needd)):
+            chk.decide(RV, chk.key(RV, 'validate_node_divert', v), v in darms, 'visited',
+                       'validate_node_divert has no arm for Node::%s: a divert written there is emitted without being '
+                       'checked' % v, vnd.loc(0))
+        # choice text is a string the emitter tokenises after validation: the validator must tokenise it as well
+        ltv = Tracer(prog, transparent=lambda cs: True, use_summaries=False)
+        emitted = set()
+        for f_ in prog.fns.values():
+            if f_.crate == 'bladeink_compiler' and '::emitter::' in f_.p:
+                for _, t in f_.calls():
+                    if callee_short(t).endswith('tokenize_inline_content') and t['args']:
+                        emitted |= {a[len('field:Choice::'):] for a in ltv.prov(f_, t['args'][0])
+                                    if a.startswith('field:Choice::')}
+        chk.floor(RV, 'Choice text fields the emitter tokenises', len(emitted), 1)
+        for walker in (vnd, vnf):
+            seen_, work_, got = set(), [walker], set()
+            while work_:
+                f_ = work_.pop()
+                if f_.p in seen_ or len(seen_) > 40:
+                    continue
+                seen_.add(f_.p)
+                for g_ in prog.with_closures(f_):
+                    for _, t in g_.calls():
+                        if callee_short(t).endswith('tokenize_inline_content') and t['args']:
+                            got |= {a[len('field:Choice::'):] for a in ltv.prov(g_, t['args'][0])
+                                    if a.startswith('field:Choice::')}
+                        h_ = prog.fns.get(callee(t))
+                        if h_ is not None and '::validator::' in h_.p and h_.short not in (
+                                'ValidationContext::validate_nodes_diverts', 'ValidationContext::validate_nodes_function_calls'):
+                            work_.append(h_)
+            for fld in sorted(emitted):
+                chk.decide(RV, chk.key(RV, walker.short.rsplit('::', 1)[-1], 'choice-text', fld), fld in got,
+                           'tokenised and walked by the validator as well',
+                           'the emitter tokenises Choice::%s after validation but %s never does: a divert, thread or call '
+                           'written in that part of a choice line is emitted unchecked' % (fld, walker.short), walker.loc(0))
+        gl = any(callee_short(t) == 'ValidationContext::validate_expr_function_calls'
+                 and 'field:GlobalVariable::initial_value' in tr.prov(g_, t['args'][1])
+                 for g_ in prog.with_closures(vst) for _, t in g_.calls() if len(t['args']) > 1)
+        chk.decide(RV, chk.key(RV, 'validate_story', 'globals'), gl, 'the initial values of the globals are checked',
+                   'validate_story does not run the expression check over GlobalVariable::initial_value: '
+                   '`VAR x = -> nowhere` is accepted', vst.loc(0))
+
     # ---------------- list items
     RE = 'C06.list-items-resolved'
     chk.rule(RE, 'Where the emitter writes a list literal, every key it inserts into the "list" object is the qualified '
